@@ -615,8 +615,11 @@ func runUnits(worker, raceWorker, id, tier string, seed int64, units []string, n
 			var stdin io.WriteCloser
 			var rd *bufio.Reader
 			var stderr *bytes.Buffer
+			// a worker started to run a unit once more (after a crash or hang) gets a fresh budget:
+			// with the original deadline already in the past the unit would return at once
+			workerDeadline := deadline
 			start := func() error {
-				cmd = exec.Command(bin, "-check", id, "-tier", tier, "-serve", "-deadline", strconv.FormatInt(deadline.Unix(), 10), "-seed", strconv.FormatInt(seed, 10))
+				cmd = exec.Command(bin, "-check", id, "-tier", tier, "-serve", "-deadline", strconv.FormatInt(workerDeadline.Unix(), 10), "-seed", strconv.FormatInt(seed, 10))
 				cmd.Env = append(os.Environ(), "VERIF_SCRATCH="+work, "GOMAXPROCS=2")
 				if bin == raceWorker {
 					cmd.Env = append(os.Environ(), "VERIF_SCRATCH="+work, "GOMAXPROCS=4", "GORACE=halt_on_error=1 exitcode=66", "VERIF_NO_RLIMIT=1")
@@ -644,12 +647,17 @@ func runUnits(worker, raceWorker, id, tier string, seed int64, units []string, n
 				cmd = nil
 			}
 			defer stop()
+			var again *job // a unit this goroutine runs once more itself (in a fresh process)
 			for {
 				var j job
-				select {
-				case j = <-jobs:
-				case <-done:
-					return
+				if again != nil {
+					j, again = *again, nil
+				} else {
+					select {
+					case j = <-jobs:
+					case <-done:
+						return
+					}
 				}
 				if cmd == nil {
 					if err := start(); err != nil {
@@ -698,11 +706,14 @@ func runUnits(worker, raceWorker, id, tier string, seed int64, units []string, n
 						what = "hung (hard timeout " + hard.String() + ")"
 					}
 					if j.tries < 1 {
+						if fresh := time.Now().Add((hard - 60*time.Second) / 2); fresh.After(workerDeadline) {
+							workerDeadline = fresh
+						}
 						// once more, in a fresh process (a unit that kills or wedges its process does so again)
 						if timedOut {
 							os.WriteFile(filepath.Join(verif, "replays", id+"-first-hang-"+strings.ReplaceAll(units[j.idx], "/", "_")+".txt"), []byte(tail), 0644)
 						}
-						jobs <- job{idx: j.idx, tries: j.tries + 1}
+						again = &job{idx: j.idx, tries: j.tries + 1}
 						continue
 					}
 					// A worker that dies or hangs twice on the same unit: the code under test killed
